@@ -7,6 +7,23 @@ from .common import *
 from .c13 import is_for, for_parts, local_id
 
 
+def called_traits(F, prefix="linalg::"):
+    """last path segments of the traits whose items the bodies under `prefix` call (resolved callees)"""
+    from .. import walk
+    out = set()
+    for b in F.bodies.values():
+        if not b["path"].startswith(prefix):
+            continue
+        for e in walk.walk_body(b):
+            c = walk.callee_of(e)
+            if c and c.get("trait"):
+                t = c["trait"].split("::")[-1]
+                out.add(t)
+                if t == "Iterator" and c.get("name") in ("sum", "product"):
+                    out.add("Sum" if c["name"] == "sum" else "Product")      # Iterator::sum is S::sum of the element type
+    return out
+
+
 def run(tier):
     chk = Check("C12", tier, "other",
                 "NARROW claim (linalg configuration), decided on the interpreted paths and element updates of the routines (loop nests and "
@@ -40,7 +57,9 @@ def run(tier):
     from . import container, c08
     container.check_L1(chk, F)
     for ty in TYPES:
-        c08.check_type(chk, F, ty, thorough=False, dual_only=True)
+        # (plus the forms of every other trait linalg.rs calls on its entries: a substitution loop written
+        # `(..).map(|k| a[(i,k)] * x[k]).sum()` depends on `Sum`)
+        c08.check_type(chk, F, ty, thorough=False, dual_only=True, also=called_traits(F))
     from . import c12_loops
     c12_loops.run_loops(chk, F)
     chk.floor("loop-body update statements checked", chk.analysed.get("loop-body update statements checked", 0), 30)
